@@ -19,7 +19,7 @@ import vp
 
 PID = "C04"
 KINDS = {"query_value", "read_value", "reader_during_session", "session_with_live_reader",
-         "nested_session", "no_progress", "set_result"}
+         "nested_session", "no_progress", "set_result", "refresh_skipped_external", "external_value"}
 
 
 def probe(bd):
@@ -120,6 +120,21 @@ CHECK_DEADLOCK FALSE
         ec.eng_persist(bd, tq, seed=seed * 1000 + 750 + i, runs=60 if quick else 150, steps=40, regime="hold", sweep=1)
         traces.append((tq, "sequential sessions with clean restarts (sweep regime, DbBacked<MemKv>)"))
 
+    # a session that refreshes MANY external inputs (re-executed in parallel chunks; counts around the chunking
+    # thresholds of this machine) and sets an ordinary input takes effect all at once: after the commit every
+    # external shows the world of the refresh (tools/gen_refresh.py, judged by EngineObsLite)
+    rcases = os.path.join(wd, "refresh.cases")
+    rgen = json.loads(vp.run(["python3", os.path.join(vp.ROOT, "tools", "gen_refresh.py"), rcases, str(seed)]).stdout.strip().splitlines()[-1])
+    rtr = os.path.join(wd, "refresh.ndjson")
+    vp.run_subject([os.path.join(bd, "eng_seq"), "--mode", "replay", "--cfg", "mem", "--in", rcases, "--out", rtr], timeout=3000)
+    rres, rr = ec.validate_lite(rtr, rtr + ".result.json")
+    refresh_leg = {"externals_per_program": rgen["externals"], "events_validated": rres["events"], "checked": rres["stats"],
+                   "violations": sum(1 for v in rres["viol"] if v["kind"] in KINDS)}
+    for v in [v for v in rres["viol"] if v["kind"] in KINDS][:3]:
+        verdict.violation(f"{v['kind']} node={v['n']} got={v['got']} want={v['want']} (wide refresh family)",
+                          {"property": PID, "violation": v, "origin": "wide refresh family", "lite": True,
+                           "case_file_generator": f"tools/gen_refresh.py OUT {seed}"})
+
     states = transitions = events = 0
     by_kind = {}
     stats = {}
@@ -160,6 +175,7 @@ CHECK_DEADLOCK FALSE
         "schedules_predicted_bad_by_model": len(bad),
         "schedules_replayed": len(chosen) + len(big),
         "stress_traces": len(traces) - 1,
+        "wide_refresh_family": refresh_leg,
         "events_validated": events,
         "checked": stats,
         "violations_by_kind": by_kind,
